@@ -141,6 +141,10 @@ def plans(prop, tier):
             P.append((k, False, 'exc', 0, ('pause',) if k == 'process' else ()))
             P.append((k, True, 'ret', 2, ('pause',)))
             P.append((k, False, 'ret', 0, (), None, 'us_none'))        # init_state 5, last value assigned in the child: None
+            if k != 'thread':
+                P.append((k, False, 'linger', 0, (), None, None))      # reported, but the child process lingers
+            for e in ('ret', 'exc'):
+                P.append((k, True, e, 2, (), None, 'restart'))         # chains of restarts from a dead worker
     return P
 
 
@@ -149,7 +153,8 @@ def signature(prop, clauses, rec):
     rd = o['reads'][0] if o['reads'] else {'has_error': 'na', 'error': 'na', 'result': 'na'}
     return '%s|%s|%s|pers=%s|ending=%s|fault=%s|at=%s:%s|in_target=%s(%s)|in_work=%s|finished=%s|dead=%s|he=%s|err=%s|res=%s|us=%s|stream=%s' % (
         prop, '+'.join(sorted(clauses)), s['kind'], s['persistent'], s['ending'], s['fault'], s['file'], s['func'],
-        s['in_target'], s.get('region', 'none'), s.get('in_work', 'F'), s['target_finished'], o['dead_observed'], rd['has_error'], rd['error'], rd['result'], o['us_end'],
+        s['in_target'], s.get('region', 'none'), s.get('in_work', 'F'), s['target_finished'], o['dead_observed'], rd['has_error'], rd['error'], rd['result'],
+        o['us_end'] + ('/linger=' + o['linger'] if o.get('linger', 'na') != 'na' else '') + ('/restart=' + o['restart_from'] if o.get('restart_from', 'na') != 'na' else ''),
         o['stream']['end'])
 
 
@@ -185,6 +190,8 @@ def run(prop, tier, replay=None):
         for bc in base_cases:
             if bc['observe'] == 'slowfin':
                 bc['observe'] = None
+            if bc['observe'] == 'restart':
+                bc.update(observe=None, restart_chain=2)
             if bc['observe'] == 'us_none':
                 bc.update(observe=None, us_none=True, init_state=5)
         base = farm.run(base_cases)
@@ -274,6 +281,7 @@ def _strip(r):
                                        'has_finally', 'target_started', 'target_finished', 'items')},
             'obs': {'dead_observed': o['dead_observed'], 'term_ret': o['term_ret'], 'reads': reads, 'fin_done': o['fin_done'],
                     'us_alive': o['us_alive'] if o['us_alive'] in ('init', 'na') else 'changed', 'us_end': o['us_end'],
+                    'linger': o.get('linger', 'na'), 'restart_from': o.get('restart_from', 'na'),
                     'setter': o['setter'], 'stream': {'got': o['stream']['got'], 'end': o['stream']['end'], 'again': o['stream'].get('again', 'na')}}}
 
 
